@@ -42,6 +42,25 @@ def directed(rng: random.Random, tier: str):
             now += 6
             hs.round([], [1, 2], now)                          # {302: 2}
             out.append(hs)
+    # process ids: declared at CONNECT_V2, declared or replaced by MODULE_READY (a forked / handed-over connection), a
+    # CONNECT-only client that declares it later; the last report lists what was declared last
+    for lvl in (60,):
+        hs = C.History(loglevel=lvl, timing=True, tag="pids")
+        for _ in range(5):
+            hs.round([], [], 0, accept=True)
+        w = [1, 2, 3, 4, 5]
+        hs.round([(1, hs.connect_v2(logger=1, mod_id=10, pid=11))], w, 0)
+        hs.round([(1, hs.sub("sub", C.ALL))], w, 0)
+        hs.round([(2, hs.connect_v2(mod_id=20, pid=500)), (3, hs.connect_v1(src_mod=21)), (4, hs.connect_v2(mod_id=0, pid=502)),
+                  (5, hs.connect_v2(mod_id=23, pid=503))], w, 0)
+        hs.round([(2, hs.ready(777, src_mod=20))], w, 1)          # replaces the pid given at connect
+        hs.round([(3, hs.ready(778, src_mod=21))], w, 1)          # first declaration
+        hs.round([(5, hs.ready(503, src_mod=23))], w, 1)          # repeats its own
+        hs.round([(2, hs.ready(779, src_mod=20))], w, 2)          # and again
+        hs.round([(3, hs.publish(300, b"x", src_mod=21))], w, 8)
+        hs.round([(3, hs.publish(300, b"y", src_mod=21))], w, 16)
+        hs.check_final_pids = True
+        out.append(hs)
     # nobody listens to the traffic itself: the only interested party hears the statistics alone (an ordinary module,
     # not a logger).  Types with no subscriber at all, with one subscriber, many distinct types; with and without -T
     for timing in (True, False):
